@@ -823,6 +823,21 @@ pub fn main(args: Args) -> i32 {
     if let Some(p) = &args.replay {
         let doc = load_replay(p);
         let j = &doc["replay"];
+        if j["kind"] == "scope_contents" {
+            let src = j["source"].as_str().unwrap();
+            let out = Environment::new().render_str(src, ()).map_err(|e| e.to_string());
+            println!("source: {}\noutput: {:?}", src, out);
+            return match out {
+                Ok(o) if o.ends_with("|outer|False") => {
+                    println!("replay: case passes");
+                    0
+                }
+                other => {
+                    println!("VIOLATION property=C05 replay={}  # scope contents_leak :: rendered {:?}", p, other);
+                    1
+                }
+            };
+        }
         let templates: Vec<(String, String)> = j["templates"].as_array().unwrap().iter().map(|t| (t[0].as_str().unwrap().to_string(), t[1].as_str().unwrap().to_string())).collect();
         let mut l = Local::default();
         let mut res = ProgramResult { abstract_states: 0, transitions: 0, traces: 0 };
@@ -966,6 +981,76 @@ pub fn main(args: Args) -> i32 {
             traces.fetch_add(res.traces, std::sync::atomic::Ordering::Relaxed);
         });
     }
+    // scope contents: whatever a body binds, however deeply inside constructs that do not open a
+    // scope of their own, is gone after the enclosing scope-opening construct, and shadowed names are
+    // back (frame depth alone cannot see a binding that lands in the wrong frame)
+    {
+        const ISOLATORS: &[(&str, &str, &str)] = &[
+            ("with_bare", "{% with %}", "{% endwith %}"),
+            ("with_assign", "{% with w = 1 %}", "{% endwith %}"),
+            ("for_once", "{% for it in [1] %}", "{% endfor %}"),
+            ("for_twice", "{% for it in [1, 2] %}", "{% endfor %}"),
+            ("macro", "{% macro mm() %}", "{% endmacro %}{{ mm() }}"),
+            ("call_block", "{% macro cw() %}{{ caller() }}{% endmacro %}{% call cw() %}", "{% endcall %}"),
+        ];
+        const CARRIERS: &[(&str, &str, &str)] = &[
+            ("direct", "", ""),
+            ("if", "{% if true %}", "{% endif %}"),
+            ("else_of_if", "{% if false %}{% else %}", "{% endif %}"),
+            ("else_of_empty_loop", "{% for e in [] %}{% else %}", "{% endfor %}"),
+            ("else_of_filtered_loop", "{% for e in [1] if false %}{% else %}", "{% endfor %}"),
+            ("filter_block", "{% filter upper %}", "{% endfilter %}"),
+            ("autoescape", "{% autoescape true %}", "{% endautoescape %}"),
+            ("if_in_else_of_loop", "{% for e in [] %}{% else %}{% if true %}", "{% endif %}{% endfor %}"),
+            ("else_of_loop_in_if", "{% if true %}{% for e in [] %}x{% else %}", "{% endfor %}{% endif %}"),
+            ("text_and_do_then_else_of_loop", "t{{ 1 }}{% for e in [] %}{{ e }}{% else %}", "{% endfor %}"),
+        ];
+        const BINDERS: &[(&str, &str)] = &[
+            ("set", "{% set q = 'in' %}{% set z = 1 %}"),
+            ("set_block", "{% set q %}in{% endset %}{% set z %}1{% endset %}"),
+            ("unpack", "{% set q, z = 'in', 1 %}"),
+            ("macro_def", "{% macro q() %}{% endmacro %}{% macro z() %}{% endmacro %}"),
+            ("with_inside", "{% with %}{% set q = 'in' %}{% set z = 1 %}{% endwith %}"),
+        ];
+        let mut progs: Vec<(String, String)> = vec![];
+        let one = ISOLATORS.iter().map(|i| vec![*i]);
+        let two = ISOLATORS.iter().flat_map(|a| ISOLATORS.iter().filter(move |b| !(a.0.starts_with("macro") && b.0.starts_with("macro")) && !(a.0 == "call_block" && b.0 == "call_block")).map(move |b| vec![*a, *b]));
+        for iso in one.chain(two) {
+            for (cname, cpre, cpost) in CARRIERS {
+                for (bname, b) in BINDERS {
+                    let mut src = String::from("{% set q = 'outer' %}");
+                    for (_, pre, _) in &iso {
+                        src.push_str(pre);
+                    }
+                    src.push_str(cpre);
+                    src.push_str(b);
+                    src.push_str(cpost);
+                    for (_, _, post) in iso.iter().rev() {
+                        src.push_str(post);
+                    }
+                    src.push_str("|{{ q }}|{{ z is defined }}");
+                    progs.push((format!("{}/{}/{}", iso.iter().map(|i| i.0).collect::<Vec<_>>().join(">"), cname, bname), src));
+                }
+            }
+        }
+        acc.count("scope_content_programs", progs.len() as u64);
+        par_items(&progs, &acc, |_, (name, src), l| {
+            l.evals += 1;
+            let got = catch(|| Environment::new().render_str(src, ()).map_err(|e| e.to_string()));
+            match got {
+                Ok(Ok(out)) if out.ends_with("|outer|False") => {
+                    l.outcome("scope contents restored");
+                    l.nontrivial.insert(fnv(src.as_bytes()));
+                }
+                other => acc.fail(Failure {
+                    key: format!("scope contents_leak isolator={} via={}", name.split('/').next().unwrap_or(""), name.split('/').nth(1).unwrap_or("")),
+                    case: format!("{} :: {}", name, src),
+                    detail: format!("after the construct the template must print ...|outer|False (shadowed name restored, new name gone) but rendered {:?}", other),
+                    replay: json!({"kind": "scope_contents", "source": src}),
+                }),
+            }
+        });
+    }
     let machinery = acc.n_failures() > 0 && {
         // conformance failures are machinery errors: report them but never as a verdict
         false
@@ -985,7 +1070,7 @@ pub fn main(args: Args) -> i32 {
             level: "model_checking",
             tier: args.tier,
             seed: args.seed,
-            rule: format!("programs: the complete depth-1 space of G with blocks, includes and loop controls in three wrappings (plain + sentinel text, as the body of a child block under extends, as an included template), every {} program of the depth-2 space{} 11 hand-written shapes, and every way of leaving a loop by break / continue (unconditional and conditional) through every sequence of 1..{} nested scoped constructs out of {{with, set block, filter block, autoescape on, autoescape off, if, call block}}; for every instruction stream (main stream, each block) and every entry point (pc 0 and every macro body with its argument count) the abstract VM is explored exhaustively (BFS, full-state deduplication; JumpIfFalse / short-circuit jumps / Iterate non-deterministic, loops 0..2 iterations, loop recursion depth <= 3) and every state/transition is checked: PopFrame finds a with-frame and PopLoopFrame a loop-frame pushed by the same evaluation, EndCapture/PopAutoEscape pop something this evaluation pushed, no operand pop below the entry height, frames/captures/auto-escape balanced at every end, every reachable state can reach an end. Each program is then rendered under 3 contexts (loops 0/1/2 times, branches both ways, one recursion level) with the verif_hooks probes recording every executed instruction, and each concrete trace is replayed through the abstract machine (same pc, operand height, frame kinds, capture depth, auto-escape depth at every step; visited states must be in the explored set), together with entry/exit balance of every real evaluation and a sentinel that must reach the output. distinct non-trivial = distinct template sets whose streams were fully explored", if args.tier == Tier::Quick { "3rd" } else { "" }, if args.tier == Tier::Thorough { " in all wrappings, every 97th depth-3 program" } else { "" }, args.tier.pick(2, 3)),
+            rule: format!("programs: the complete depth-1 space of G with blocks, includes and loop controls in three wrappings (plain + sentinel text, as the body of a child block under extends, as an included template), every {} program of the depth-2 space{} 11 hand-written shapes, the scope-contents family (6 scope-opening constructs alone and in pairs x 10 carriers that open no scope of their own - if/else arms, else bodies of empty and fully filtered loops, filter, autoescape, combinations - x 5 ways of binding a shadowing and a new name; after the construct the shadowed name must be back and the new one gone), and every way of leaving a loop by break / continue (unconditional and conditional) through every sequence of 1..{} nested scoped constructs out of {{with, set block, filter block, autoescape on, autoescape off, if, call block}}; for every instruction stream (main stream, each block) and every entry point (pc 0 and every macro body with its argument count) the abstract VM is explored exhaustively (BFS, full-state deduplication; JumpIfFalse / short-circuit jumps / Iterate non-deterministic, loops 0..2 iterations, loop recursion depth <= 3) and every state/transition is checked: PopFrame finds a with-frame and PopLoopFrame a loop-frame pushed by the same evaluation, EndCapture/PopAutoEscape pop something this evaluation pushed, no operand pop below the entry height, frames/captures/auto-escape balanced at every end, every reachable state can reach an end. Each program is then rendered under 3 contexts (loops 0/1/2 times, branches both ways, one recursion level) with the verif_hooks probes recording every executed instruction, and each concrete trace is replayed through the abstract machine (same pc, operand height, frame kinds, capture depth, auto-escape depth at every step; visited states must be in the explored set), together with entry/exit balance of every real evaluation and a sentinel that must reach the output. distinct non-trivial = distinct template sets whose streams were fully explored", if args.tier == Tier::Quick { "3rd" } else { "" }, if args.tier == Tier::Thorough { " in all wrappings, every 97th depth-3 program" } else { "" }, args.tier.pick(2, 3)),
             exhaustive: true,
             bound: json!({"max_loop_iterations": MAX_ITERS, "max_loop_recursion": MAX_REC}),
             assumptions: vec![
